@@ -10,7 +10,7 @@ theorem givenUtf8_bounds (s : Nat) (h1 : s ≠ 0) (h2 : s ≤ 10) : 1 ≤ givenU
   rcases this with h | h | h | h | h | h | h | h | h | h <;> subst h <;> simp [givenUtf8]
 
 /-- a state at a frame boundary built from `ws` -/
-theorem Inv.toStart {ws : WS} (h : Inv ws) (hs : ws.step = 17 ∨ ws.step = 18)
+theorem Inv.toStart {ws : WS} (h : Inv ws) (_hs : ws.step = 17 ∨ ws.step = 18)
     (dbuf : Option (List UInt8)) (cbuf : Option (List UInt8)) (dstart dsize dtype : Nat)
     (hb : match dbuf with
           | none => dsize = 0
@@ -52,7 +52,7 @@ theorem payloadComplete_ok {ws : WS} (h : Inv ws) (hv : ws.validity ≠ 0) (hs :
       split
       · exact HC_err _ _ _ _
       · rename_i hnu
-        refine ⟨fun _ => h.toStart hs none ws.ctrlBuf 0 0 0 rfl (by omega) ?_ (by omega), rfl, ?_⟩
+        refine ⟨fun _ => h.toStart hs none ws.ctrlBuf 0 0 0 rfl (by omega) ?_ (by omega), rfl, ?_, fun _ => ⟨rfl, hv⟩⟩
         · intro _
           by_cases hd : ws.dataType = 1
           · simp only [hd, true_and, ne_eq, Decidable.not_not] at hnu; exact hnu
@@ -64,7 +64,7 @@ theorem payloadComplete_ok {ws : WS} (h : Inv ws) (hv : ws.validity ≠ 0) (hs :
       have hcb := h.cbuf h18
       split
       · exact HC_err _ _ _ _
-      · refine ⟨fun _ => ?_, rfl, ?_⟩
+      · refine ⟨fun _ => ?_, rfl, ?_, fun _ => ⟨rfl, hv⟩⟩
         · have := h.toStart hs ws.dataBuf none ws.dataStart ws.dataSize ws.dataType hdb h.dsz h.u8a
             (by intro hd; have := hcarry hd; rw [if_neg (by omega)] at this; exact this)
           exact this
@@ -95,7 +95,7 @@ theorem payloadComplete_ok {ws : WS} (h : Inv ws) (hv : ws.validity ≠ 0) (hs :
         split
         · rename_i hne
           split
-          · exact ⟨fun _ => h, rfl, rfl⟩
+          · exact ⟨fun _ => h, rfl, rfl, fun h => by omega⟩
           · rename_i nx hnx
             obtain ⟨hnxl, _⟩ := alloc_length _ _ _ hnx
             split
@@ -112,14 +112,14 @@ theorem payloadComplete_ok {ws : WS} (h : Inv ws) (hv : ws.validity ≠ 0) (hs :
               have hl1 := writeAt_length _ _ _ _ hnx'
               have hl2 := termAt_length _ _ _ hbuf'
               simp only [hnx', hbuf']
-              refine ⟨fun _ => ?_, rfl, ?_⟩
+              refine ⟨fun _ => ?_, rfl, ?_, fun _ => ⟨rfl, hv⟩⟩
               · exact h.toStart hs (some nx') ws.ctrlBuf ws.dataStart (givenUtf8 ws.dataUtf8) ws.dataType
                   (by simp only []; omega) (by omega) h.u8a (fun _ => Nat.le_refl _)
               · show _ < _; omega
-        · refine ⟨fun _ => ?_, rfl, rfl⟩
+        · refine ⟨fun _ => ?_, rfl, rfl, fun _ => ⟨rfl, hv⟩⟩
           exact h.toStart hs ws.dataBuf ws.ctrlBuf ws.dataStart ws.dataSize ws.dataType hdb h.dsz h.u8a hcar
       · rename_i hntxt
-        refine ⟨fun _ => ?_, rfl, ?_⟩
+        refine ⟨fun _ => ?_, rfl, ?_, fun _ => ⟨rfl, hv⟩⟩
         · refine h.toStart hs none ws.ctrlBuf 0 0 ws.dataType rfl (by omega) h.u8a ?_
           intro hd
           have : ws.dataUtf8 = 0 := by
@@ -129,4 +129,175 @@ theorem payloadComplete_ok {ws : WS} (h : Inv ws) (hv : ws.validity ≠ 0) (hs :
           unfold PlOK; split <;> simp_all
     · refine ⟨?_, hv, rfl⟩
       exact h.toStart hs ws.dataBuf ws.ctrlBuf ws.dataStart ws.dataSize ws.dataType hdb h.dsz h.u8a hcar
+end Mhd.WS
+namespace Mhd.WS
+theorem Inv.advData {ws : WS} (h : Inv ws) (hs : ws.step = 17) (buf' : List UInt8)
+    (hl : buf'.length = ws.dataSize + 1) (k : Nat) (hk : ws.payloadIndex + k ≤ ws.payloadSize) (s : Nat)
+    (hs10 : s ≤ 10) (hu : ws.dataType ≠ 1 → s = 0)
+    (hc : ws.dataType = 1 → givenUtf8 s ≤ ws.dataStart + (ws.payloadIndex + k)) :
+    Inv { ws with dataBuf := some buf', payloadIndex := ws.payloadIndex + k, dataUtf8 := s } := by
+  exact { h with
+    idx := hk
+    idx0 := by intro h1; simp only [] at h1; omega
+    dbuf := hl
+    u8a := hu
+    u8b := hs10
+    carry := by intro hd; have := hc hd; simp only [hs, if_true]; exact this }
+
+theorem Inv.advCtrl {ws : WS} (h : Inv ws) (hs : ws.step = 18) (buf' : List UInt8)
+    (hl : buf'.length = ws.payloadSize + 1) (k : Nat) (hk : ws.payloadIndex + k ≤ ws.payloadSize) (cu : Nat) :
+    Inv { ws with ctrlBuf := some buf', payloadIndex := ws.payloadIndex + k, ctrlUtf8 := cu } := by
+  have hc := h.carry
+  have h17 : ¬ ws.step = 17 := by omega
+  simp only [h17, if_false] at hc
+  exact { h with
+    idx := hk
+    idx0 := by intro h1; simp only [] at h1; omega
+    cbuf := fun _ => hl
+    carry := by intro hd; have := hc hd; simp only [h17, if_false]; exact this }
+
+theorem payloadFinish_ok {ws0 ws : WS} {n take : Nat} (h : Inv ws) (hv : ws.validity ≠ 0)
+    (hs : ws.step = 17 ∨ ws.step = 18) (ht : take ≤ n)
+    (hprog : 1 ≤ take ∨ (sil ws0 = 1 ∧ ws.payloadSize = ws.payloadIndex)) :
+    R.OK ws0 n (payloadFinish false take ws) := by
+  unfold payloadFinish
+  split
+  · rename_i he
+    have := payloadComplete_ok h hv hs he
+    revert this
+    cases payloadComplete false ws with
+    | cont ws' k =>
+      intro hc
+      obtain ⟨hi, hv', hst⟩ := hc
+      refine ⟨hi, hv', ht, ?_⟩
+      have : sil ws' = 0 := by unfold sil; rw [show ws'.step = 0 from hst]; simp
+      rcases hprog with h1 | ⟨h1, _⟩ <;> omega
+    | ret ws' st k pl plen =>
+      intro hc
+      refine ⟨hc.1, ht, hc.2.2.1, fun h0 => ?_⟩
+      obtain ⟨hst, hv'⟩ := hc.2.2.2 h0
+      refine ⟨?_, hv', fun hq => ?_⟩
+      · unfold sil; rw [hst]; simp
+      · rcases hprog with h1 | ⟨h1, _⟩ <;> omega
+    | fault s => intro hc; exact hc
+  · rename_i hne
+    refine ⟨h, hv, ht, ?_⟩
+    have : sil ws = 0 := by
+      unfold sil; rw [if_neg (by omega), if_neg (by intro hh; exact hne hh.2)]
+    rcases hprog with h1 | ⟨_, h2⟩
+    · omega
+    · exact absurd h2 hne
+
+end Mhd.WS
+namespace Mhd.WS
+
+theorem checkUtf8Buf_in (buf : List UInt8) (start n step : Nat) (h : start + n ≤ buf.length) :
+    checkUtf8Buf buf start n step = .res (checkUtf8 ((buf.drop start).take n) step 0) := by
+  unfold checkUtf8Buf; rw [if_pos h]
+
+theorem stepPayload_ok {ws : WS} (h : Inv ws) (hv : ws.validity ≠ 0) (hs : ws.step = 17 ∨ ws.step = 18)
+    (rest : List UInt8) (hn : 1 ≤ rest.length) : R.OK ws rest.length (stepPayload false ws rest) := by
+  unfold stepPayload
+  have hidx := h.idx
+  have hpsz := h.psz
+  have hneed : (ws.payloadSize + W - ws.payloadIndex) % W = ws.payloadSize - ws.payloadIndex := by
+    rw [W_eq]; omega
+  simp only [hneed]
+  by_cases ht : min (ws.payloadSize - ws.payloadIndex) rest.length = 0
+  · simp only [ht, ne_eq, not_true_eq_false, if_false]
+    have he : ws.payloadSize = ws.payloadIndex := by omega
+    refine payloadFinish_ok h hv hs (Nat.zero_le _) (Or.inr ⟨?_, he⟩)
+    unfold sil
+    rw [if_neg (by omega), if_pos ⟨hs, he⟩]
+  · generalize htk : min (ws.payloadSize - ws.payloadIndex) rest.length = take at ht
+    have htn : take ≤ rest.length := by omega
+    have hti : ws.payloadIndex + take ≤ ws.payloadSize := by omega
+    have ht1 : 1 ≤ take := by omega
+    simp only [ne_eq, ht, not_false_eq_true, if_true]
+    obtain ⟨h0, hh0, hok⟩ := h.h0 (by omega) (by omega)
+    simp only [hh0]
+    have hcl : (copyPayload (rest.take take) ws.maskKey (ws.payloadIndex % 4)).length = take := by
+      rw [copyPayload_length, List.length_take]; omega
+    rcases hs with h17 | h18
+    · -- data frame
+      have hdst := h.dst h17
+      have hdb := h.dbuf
+      simp only [if_pos h17]
+      split
+      · rename_i hnone
+        rw [hnone] at hdb; simp only [] at hdb; omega
+      · rename_i buf hbuf
+        rw [hbuf] at hdb; simp only [] at hdb
+        obtain ⟨buf', hw⟩ := writeAt_some buf (ws.dataStart + ws.payloadIndex)
+          (copyPayload (rest.take take) ws.maskKey (ws.payloadIndex % 4)) (by rw [hcl]; omega)
+        have hl' := writeAt_length _ _ _ _ hw
+        simp only [hw, payloadAdvance, if_pos h17]
+        have hinv1 : Inv { ws with dataBuf := some buf', payloadIndex := ws.payloadIndex + take } := by
+          have hcar := h.carry
+          simp only [h17, if_true] at hcar
+          exact h.advData h17 buf' (by omega) take hti ws.dataUtf8 h.u8b h.u8a
+            (by intro hd; have := hcar hd; omega)
+        split
+        · rename_i hcond
+          have hd1 : ws.dataType = 1 := by
+            rcases hcond with ⟨_, hd⟩ | ⟨h18', _⟩
+            · exact hd
+            · exact absurd h18' (by show ¬ ws.step = 18; omega)
+          unfold utf8OfPayload
+          simp only [if_pos h17]
+          rw [checkUtf8Buf_in _ _ _ _ (by omega)]
+          cases hx : checkUtf8 ((buf'.drop (ws.dataStart + ws.payloadIndex)).take take) ws.dataUtf8 0 with
+          | invalid o =>
+            simp only []
+            have := checkUtf8_invalid_lt _ _ _ _ hx
+            simp only [List.length_take, List.length_drop] at this
+            exact OK_err _ _ _ _ (by omega)
+          | ok s =>
+            simp only []
+            have hs10 := checkUtf8_le _ _ _ _ h.u8b hx
+            have hg := checkUtf8_given _ _ _ _ hx
+            simp only [List.length_take, List.length_drop] at hg
+            have hcar := h.carry hd1
+            simp only [if_pos h17] at hcar
+            refine payloadFinish_ok (ws := { ws with dataBuf := some buf', payloadIndex := ws.payloadIndex + take, dataUtf8 := s })
+              ?_ hv (Or.inl h17) htn (Or.inl ht1)
+            exact h.advData h17 buf' (by omega) take hti s hs10 (fun hne => absurd hd1 hne) (fun _ => by omega)
+        · exact payloadFinish_ok hinv1 hv (Or.inl h17) htn (Or.inl ht1)
+    · -- control frame
+      have h17 : ¬ ws.step = 17 := by omega
+      have hcb := h.cbuf h18
+      simp only [if_neg h17]
+      split
+      · rename_i hnone
+        rw [hnone] at hcb; simp only [] at hcb; omega
+      · rename_i buf hbuf
+        rw [hbuf] at hcb; simp only [] at hcb
+        obtain ⟨buf', hw⟩ := writeAt_some buf (0 + ws.payloadIndex)
+          (copyPayload (rest.take take) ws.maskKey (ws.payloadIndex % 4)) (by rw [hcl]; omega)
+        have hl' := writeAt_length _ _ _ _ hw
+        simp only [hw, payloadAdvance, if_neg h17]
+        have hinv1 : Inv { ws with ctrlBuf := some buf', payloadIndex := ws.payloadIndex + take } :=
+          h.advCtrl h18 buf' (by omega) take hti ws.ctrlUtf8
+        split
+        · rename_i hcond
+          have h2 : 2 < ws.payloadIndex + take := by
+            rcases hcond with ⟨h17', _⟩ | ⟨_, _, h2⟩
+            · exact absurd h17' h17
+            · exact h2
+          unfold utf8OfPayload
+          simp only [if_neg h17, Bool.false_eq_true, if_false]
+          rw [checkUtf8Buf_in _ _ _ _ (by split <;> omega)]
+          cases hx : checkUtf8 ((buf'.drop (0 + if ws.payloadIndex < 2 then 2 else ws.payloadIndex)).take
+              (ws.payloadIndex + take - if ws.payloadIndex < 2 then 2 else ws.payloadIndex)) ws.ctrlUtf8 0 with
+          | invalid o =>
+            simp only []
+            have := checkUtf8_invalid_lt _ _ _ _ hx
+            simp only [List.length_take, List.length_drop] at this
+            refine OK_err _ _ _ _ ?_
+            split at this <;> split <;> omega
+          | ok s =>
+            simp only []
+            exact payloadFinish_ok (ws := { ws with ctrlBuf := some buf', payloadIndex := ws.payloadIndex + take, ctrlUtf8 := s })
+              (h.advCtrl h18 buf' (by omega) take hti s) hv (Or.inr h18) htn (Or.inl ht1)
+        · exact payloadFinish_ok hinv1 hv (Or.inr h18) htn (Or.inl ht1)
 end Mhd.WS
